@@ -133,14 +133,19 @@ def parseUint (base : Nat) (s : List Char) : Option Nat :=
     | some n, some d => if d < base ∧ n * base + d < 2 ^ 64 then some (n * base + d) else none
     | _, _ => none) (some 0)
 
-/-- `uintPow` (square and multiply in uint64: wraps modulo 2^64) -/
-def uintPow (fuel : Nat) (base exp result : Nat) : Nat :=
+/-- `uintPow` (square and multiply in uint64; a product that does not fit 64 bits is an error):
+      if exp&1 == 1 { if base != 0 && result > MaxUint64/base { error }; result *= base }
+      exp >>= 1; if exp == 0 { break }
+      if base > MaxUint32 { error }; base *= base -/
+def uintPow (fuel : Nat) (base exp result : Nat) : Option Nat :=
   match fuel with
-  | 0 => result
+  | 0 => some result
   | fuel + 1 =>
-    let result := if exp % 2 = 1 then (result * base) % 2 ^ 64 else result
+    if exp % 2 = 1 ∧ 2 ^ 64 ≤ result * base then none else
+    let result := if exp % 2 = 1 then result * base else result
     let exp := exp / 2
-    if exp = 0 then result else uintPow fuel ((base * base) % 2 ^ 64) exp result
+    if exp = 0 then some result else
+    if 2 ^ 64 ≤ base * base then none else uintPow fuel (base * base) exp result
 
 def splitStars : List Char → Option (List Char × List Char)
   | [] => none
@@ -155,7 +160,7 @@ def parseValue (v : String) : Option Nat :=
     | some (x, y) => do
       let a ← parseUint 10 x
       let b ← parseUint 10 y
-      pure (uintPow 64 a b 1)
+      uintPow 64 a b 1
     | none => parseUint 10 cs
 
 /-! ### includes -/
